@@ -28,6 +28,10 @@ RULE = ('histories over {backward(any subset of parameters, random gradient arra
         'elements, mixed frozen/trainable; every array element is one scalar parameter of the model. Compared after every '
         'event: values (rel 1e-10), presence and value of .grad, identity / dtype / shape of p.data. Non-trivial: >= 2 steps '
         'and a non-default hyper-parameter. '
+        'NON-FINITE GRADIENTS: histories with one to three overflow episodes — a backward whose gradient holds inf / -inf / NaN in some entries of some parameters (float64 also +-1.5e308, '
+        'overflowing on accumulation), the step skipped (3 of 4) or taken, zero_grad through Optimizer.zero_grad / Module.zero_grad (parameters held by a module and a submodule) / '
+        'Tensor.zero_ on every parameter, then finite gradients and steps — for every optimizer x every way of resetting; model and implementation run at Float, so inf / NaN flow through both; '
+        'after a reset the trajectory must be the recursion on the finite gradients only. '
         'Family `store` (Synap.OptimStore, arrays as buffers with identities): histories over {backward (one loss.backward() over any subset), '
         'p.backward(g) on a parameter itself, zero_grad, step, freeze/unfreeze} biased towards backward-step-backward-step without zero_grad '
         'and several backwards per step, 1-3 float64 C-contiguous parameters of 1-4 elements, length <= 10 (quick) / 40 (thorough), plus three '
@@ -87,6 +91,43 @@ def gen(rng, tier, kind=None, hp=None, nev=None):
     return {'opt': kind, 'hp': hp, 'thetas': thetas, 'rgs': rgs, 'evs': evs, 'seed_lay': rng.randrange(4), 'dt': rng.pick(['f64', 'f64', 'f32'])}
 
 
+NONFINITE = [float('inf'), float('-inf'), float('nan')]
+
+
+def gen_nonfinite(rng, tier, kind=None):
+    """histories with NON-FINITE gradient events, as a training loop under loss scaling / with an occasional overflow produces them:
+    a backward whose gradient holds inf / -inf / NaN in some entries of some parameters (or, float64, entries so large that two
+    accumulations overflow); the step skipped (three times out of four) or taken; zero_grad — through Optimizer.zero_grad, Module.zero_grad
+    or Tensor.zero_ on every parameter —; then finite gradients and steps.  One to three such episodes per history, ordinary events
+    around them.  After a reset the trajectory is the published recursion on the finite gradients only."""
+    c = gen(rng, tier, kind, nev=2)
+    npar = len(c['thetas']); sizes = [len(t) for t in c['thetas']]
+    if not any(c['rgs']): c['rgs'][rng.randrange(npar)] = True
+    fin = lambda i: [rng.dyadic(-2, 2) if rng.chance(.7) else rng.uniform(-2, 2) for _ in range(sizes[i])]
+    def bw(bad=False):
+        sub = [i for i in range(npar) if rng.chance(0.7)] or [rng.randrange(npar)]
+        gs = {i: fin(i) for i in sub}
+        if bad:
+            live = [i for i in sub if c['rgs'][i]] or sub
+            for i in rng.sample(live, rng.randint(1, len(live))):
+                for k in rng.sample(range(sizes[i]), rng.randint(1, sizes[i])):
+                    gs[i][k] = rng.pick(NONFINITE + ([1.5e308, -1.5e308] if c['dt'] == 'f64' else []))
+        return ('bw', gs)
+    evs = []
+    for _ in range(rng.randint(0, 2)): evs.append(rng.pick([bw(), ('step',), ('zero',), bw()]))
+    for ep in range(rng.randint(1, 2 if tier == 'quick' else 3)):
+        evs += [bw(True)] if rng.chance(.7) else rng.pick([[bw(), bw(True)], [bw(True), bw()], [bw(True), bw(True)]])
+        if rng.chance(.25): evs.append(('step',))           # the overflowed step is usually skipped
+        evs.append(('zero',))
+        if rng.chance(.2): evs.append(('zero',))
+        for _ in range(rng.randint(1, 2)):
+            evs += [bw()] * 1 + ([bw()] if rng.chance(.3) else []) + [('step',)] + ([('zero',)] if rng.chance(.6) else [])
+    c['evs'] = evs
+    c['zero_via'] = rng.pick(['optimizer', 'optimizer', 'module', 'tensor'])
+    c['nonfinite'] = True
+    return c
+
+
 def _ctor_line(c):
     hp, kind = c['hp'], c['opt']
     th = show_floats([v for t in c['thetas'] for v in t])
@@ -128,6 +169,12 @@ def cases(rng, tier):
         out.append(gen(rng, tier, kind, hp, nev=8))
     for _ in range(120 if tier == 'quick' else 3000):
         out.append(gen(rng, tier))
+    # non-finite gradient events followed by zero_grad: every optimizer x every way of resetting, then random
+    for j in range(36 if tier == 'quick' else 900):
+        c = gen_nonfinite(rng, tier, ['sgd', 'adam', 'adamw'][j % 3])
+        if j < 9: c['zero_via'] = ['optimizer', 'module', 'tensor'][j // 3]
+        if j % 3 == 0 and j % 2 == 0 and c['hp']['momentum'] == 0: c['hp']['momentum'] = 0.9
+        out.append(c)
     if tier == 'thorough':
         # EXHAUSTIVE part: every word of length <= 6 over {backward on p0, backward on p1, backward on both, zero_grad, step,
         # freeze p1, unfreeze p1} for two one-element parameters, under one representative setting of each optimizer
@@ -180,7 +227,20 @@ def _run(c, observe):
             else:
                 big = np.full((2, a.shape[1] + 2), 9.0, dtype=a.dtype); big[:, 1:-1] = a; a = big[:, 1:-1]
         return a
-    ps = [sg.Tensor(param(t, k), requires_grad=rg) for k, (t, rg) in enumerate(zip(c['thetas'], c['rgs']))]
+    via = c.get('zero_via', 'optimizer')
+    holder = None
+    if via == 'module':          # the parameters belong to a module (one of them to a submodule); gradients are reset through Module.zero_grad
+        from synapgrad import nn
+        class Holder(nn.Module):
+            def forward(self, x): return x
+        ps = [nn.Parameter(param(t, k), requires_grad=rg) for k, (t, rg) in enumerate(zip(c['thetas'], c['rgs']))]
+        holder, sub = Holder(), Holder()
+        for k, p in enumerate(ps): setattr(sub if (k == 1) else holder, f'p{k}', p)
+        holder.sub = sub
+        got = holder.parameters()
+        if len(got) != len(ps) or any(not any(q is p for q in got) for p in ps): raise AssertionError('harness: the module does not report the parameters it was given')
+    else:
+        ps = [sg.Tensor(param(t, k), requires_grad=rg) for k, (t, rg) in enumerate(zip(c['thetas'], c['rgs']))]
     hp = dict(c['hp'])
     cls = {'sgd': optim.SGD, 'adam': optim.Adam, 'adamw': optim.AdamW}[c['opt']]
     opt = cls(ps, **hp)
@@ -195,7 +255,11 @@ def _run(c, observe):
                     loss = loss + t
                 loss.backward()
         elif e[0] == 'zero':
-            opt.zero_grad()
+            if via == 'module': holder.zero_grad()
+            elif via == 'tensor':
+                for p in ps:
+                    if p.requires_grad: p.zero_()
+            else: opt.zero_grad()
         elif e[0] == 'step':
             opt.step()
         else:
@@ -306,6 +370,11 @@ def distribution(cases):
                 d[k] = d.get(k, 0) + 1
             continue
         d[c['opt']] = d.get(c['opt'], 0) + 1
+        if c.get('nonfinite'):
+            taken = any(a[0] == 'bw' and any(v != v or abs(v) == float('inf') for g in a[1].values() for v in g) and b[0] == 'step' for a, b in zip(c['evs'], c['evs'][1:]))
+            for k in ('non-finite gradient events (inf / -inf / NaN entries, overflowing accumulation) followed by zero_grad and finite gradients',
+                      f"non-finite: {c['opt']}, gradients reset through {c['zero_via']}", 'non-finite: overflowed step ' + ('taken' if taken else 'skipped')):
+                d[k] = d.get(k, 0) + 1
         if c.get('exhaustive'): d['exhaustive: all event words up to length 5 (sgd) / 4 (adam, adamw) containing a step'] = d.get('exhaustive: all event words up to length 5 (sgd) / 4 (adam, adamw) containing a step', 0) + 1
         for e in c['evs']:
             d['ev:' + e[0]] = d.get('ev:' + e[0], 0) + 1
@@ -671,7 +740,7 @@ def oracle(c):
             if f32:         # tolerance of an element follows the largest magnitude it has had so far (see compare)
                 for v in (abs(x), abs(y)):
                     if v == v and v != float('inf'): hist[j] = max(hist.get(j, 0.0), v)
-            if (x != x) != (y != y) or (x == x and abs(x - y) > (2e-6 if f32 else 1e-9) * (1 + abs(x) + abs(y)) and not (f32 and abs(x - y) <= 4e-6 * hist.get(j, 0.0))):
+            if (x != x) != (y != y) or (x == x and y == y and float('inf') in (abs(x), abs(y)) and x != y) or (x == x and abs(x - y) > (2e-6 if f32 else 1e-9) * (1 + abs(x) + abs(y)) and not (f32 and abs(x - y) <= 4e-6 * hist.get(j, 0.0))):
                 return {'key': dict(key, cls='trajectory'), 'case': _strip(c, k + 1), 'what': f'after event {k} ({c["evs"][k][0]}) parameters are {a}, the published recursion gives {b}'}
     if not flags['inplace']:
         return {'key': dict(key, cls='inplace'), 'case': _strip(c), 'what': 'p.data was replaced, not updated in place'}
@@ -683,7 +752,8 @@ def oracle(c):
 def _strip(c, nev=None):
     if c.get('kind') == 'store':
         return {'kind': 'store', 'opt': c['opt'], 'hp': c['hp'], 'thetas': c['thetas'], 'rgs': c['rgs'], 'evs': c['evs'][:nev] if nev else c['evs']}
-    return {'opt': c['opt'], 'hp': c['hp'], 'thetas': c['thetas'], 'rgs': c['rgs'], 'evs': c['evs'][:nev] if nev else c['evs'], 'seed_lay': c.get('seed_lay', 0), 'dt': c.get('dt', 'f64')}
+    return {'opt': c['opt'], 'hp': c['hp'], 'thetas': c['thetas'], 'rgs': c['rgs'], 'evs': c['evs'][:nev] if nev else c['evs'], 'seed_lay': c.get('seed_lay', 0), 'dt': c.get('dt', 'f64'),
+            'zero_via': c.get('zero_via', 'optimizer')}
 
 
 def search(rng, tier):
